@@ -65,7 +65,9 @@ def isnan(x):
     return x != x
 
 
-class HandlerFault(Exception):
+# VF_FAULTBASE=1 (replay mode only: the symbolic executor steers with BaseException subclasses, so the bare except of
+# SimEvent.execute is narrowed there): the planned fault is a BaseException-only type, like SystemExit / KeyboardInterrupt
+class HandlerFault(BaseException if (rt.MODE == "replay" and os.environ.get("VF_FAULTBASE") == "1") else Exception):
     pass
 
 
